@@ -18,7 +18,9 @@ def call(fn, timeout_s, *a, **kw):
     """Returns (status, value, elapsed): status in ok / exc / timeout."""
     old = signal.signal(signal.SIGALRM, _handler)
     t0 = time.time()
-    signal.setitimer(signal.ITIMER_REAL, timeout_s)
+    # repeating: an alarm that lands inside a context where exceptions are
+    # swallowed (a gc callback, a __del__) is lost, the next one is not
+    signal.setitimer(signal.ITIMER_REAL, timeout_s, 0.5)
     done = False
     v = None
     try:
@@ -28,6 +30,7 @@ def call(fn, timeout_s, *a, **kw):
             signal.setitimer(signal.ITIMER_REAL, 0)
             return "ok", v, time.time() - t0
         except Watchdog:
+            signal.setitimer(signal.ITIMER_REAL, 0)
             if done:
                 # the alarm went off between the return of fn and the
                 # disarming of the timer: fn did finish
